@@ -31,7 +31,6 @@ ASSUMPTIONS = [
     'messages and pings that complete after the endpoint itself sent a close frame but before the peer\'s close frame may or may not be delivered/answered (RFC 6455 allows both); only exact-or-absent is required of them',
     'frames after the peer\'s close frame are sent by the harness on purpose (a non-conforming tail) to observe that nothing is delivered after a close frame',
     'the closing handshake itself (echoing the close frame, closing the transport) and the masking of the codec\'s own close frame are counted but not asserted',
-    'no generated ping is subject to two known-finding mechanisms at once (inside a fragmented message / in constructor data / after the endpoint\'s close frame): it is generated as a pong instead, because the neutralised twins could not separate the mechanisms (restriction to be lifted once the findings are fixed)',
 ]
 REQUIRED = ['ref_codec_rfc_vectors_ok', 'server_mode_case', 'client_mode_case',
             'inbound_len_7bit', 'inbound_len_16bit', 'inbound_len_64bit', 'inbound_masked_frame', 'inbound_unmasked_frame',
@@ -595,11 +594,8 @@ def sanitize(case):
     """Generated cases never contain a ping subject to two known-finding mechanisms at once (e.g. inside a fragmented message AND
     after the endpoint's own close frame): turning it into a pong removes all of them together, so the neutralised twins could
     not tell which one a failure is due to.  Such a ping is generated as a pong instead."""
-    lay = [layout(c) for c in case['conns']]
-    tl = timeline(case, lay)
-    for (ci, i), ks in ping_mechanisms(case, lay, tl).items():
-        if len(ks) > 1:
-            _to_pong(case, ci, lay[ci][1][i]['ref'])
+    # restriction lifted: every one of those findings has been repaired (known_findings.json), so no attribution is needed any more
+    # and pings in constructor data / inside fragmented messages / after the endpoint's close frame are generated in any combination
     return case
 
 
